@@ -1,15 +1,14 @@
 (* C01 - analytic component derivatives equal the true derivatives.  Property theorems only (statements printed by Coq from the libraries Real/*Deriv.v).  DR g t0 p  :=  g t0 = fst p /\ is_derive g t0 (snd p);  every theorem says: along ANY differentiable curve of the inputs, the dual-number evaluation of the component model gives the value and the derivative - hence every partial derivative (C01_dual_number_tangent_is_the_partial_derivative) and, by composition, every chain of components (part 1) *)
-From Coq Require Import Reals ZArith Lra Lia Arith Bool List.
+From Coq Require Import Reals ZArith Lra Lia Arith Bool List String.
 From Coquelicot Require Import Coquelicot.
-From OAS Require Import Scalar Rops Sums Deriv Dual DualProofs Drag DragDeriv Stress StressDeriv StressProofs Transfer TransferDeriv Loads LoadsDeriv Functionals FunctionalsDeriv Aero AeroDeriv PG PGDeriv Beam BeamTables BeamDeriv Geom GeomDeriv Misc MiscDeriv.
+From OAS Require Import Scalar Rops Sums Deriv Dual DualProofs Drag DragDeriv Stress StressDeriv StressProofs Transfer TransferDeriv Loads LoadsDeriv Functionals FunctionalsDeriv Aero AeroDeriv PG PGDeriv Beam BeamTables BeamDeriv Geom GeomDeriv Misc MiscDeriv MultiSec MultiSecDeriv.
 Open Scope R_scope.
 
 (* the meaning of every statement below: the tangent part of the dual-number evaluation is the coordinate partial derivative *)
 Theorem C01_dual_number_tangent_is_the_partial_derivative :
   forall (f : (nat -> R) -> R) (fd : (nat -> dual R) -> dual R) (x : nat -> R) (c : nat),
   DR (fun t : R => f (upd1 x c t)) (x c) (fd (seed1 x c)) ->
-  Derive.is_derive (fun t : Hierarchy.AbsRing.sort Hierarchy.R_AbsRing => f (upd1 x c t)) 
-    (x c) (snd (fd (seed1 x c))).
+  is_derive (fun t : R_AbsRing => f (upd1 x c t)) (x c) (snd (fd (seed1 x c))).
 Proof. exact DR_partial. Qed.
 Print Assumptions C01_dual_number_tangent_is_the_partial_derivative.
 
